@@ -169,32 +169,42 @@ func c17(args []string) error {
 				continue
 			}
 			for k := 0; k < 2; k++ {
-				text := r.ast.Text(renderOpts{table: tokenTables[(k+r.b)%len(tokenTables)]})
-				po := parseOptSets[(k+r.b)%len(parseOptSets)]
-				o, perr := geojson.Parse(text, &po)
-				if perr != nil {
-					continue
-				}
-				j := o.JSON()
-				mj, _ := o.MarshalJSON()
-				e := obj{"op": "ser2", "text": clip(text, 300), "output": clip(j, 400)}
-				e["same4"] = j == o.String() && j == string(mj) && j == string(o.AppendJSON(nil))
-				appendok, prefixok := true, true
-				for _, prefix := range []string{"", `[1,`} {
-					for _, spare := range []int{0, 3, 300} {
-						buf := make([]byte, len(prefix), len(prefix)+spare)
-						copy(buf, prefix)
-						res := o.AppendJSON(buf)
-						appendok = appendok && string(res) == prefix+j
-						prefixok = prefixok && bytes.Equal(buf[:len(prefix)], []byte(prefix))
+				k := k
+				text := ""
+				func() {
+					defer func() {
+						if rec := recover(); rec != nil {
+							ev.Emit(obj{"op": "ser2", "text": clip(text, 300), "output": "panic: " + fmt.Sprint(rec), "same4": false, "appendok": false, "prefixok": false, "valid": false, "isobject": false})
+							parsed++
+						}
+					}()
+					text = r.ast.Text(renderOpts{table: tokenTables[(k+r.b)%len(tokenTables)]})
+					po := parseOptSets[(k+r.b)%len(parseOptSets)]
+					o, perr := geojson.Parse(text, &po)
+					if perr != nil {
+						return
 					}
-				}
-				e["appendok"], e["prefixok"] = appendok, prefixok
-				e["valid"] = json.Valid([]byte(j))
-				var top map[string]json.RawMessage
-				e["isobject"] = json.Unmarshal([]byte(j), &top) == nil && top["type"] != nil
-				ev.Emit(e)
-				parsed++
+					j := o.JSON()
+					mj, _ := o.MarshalJSON()
+					e := obj{"op": "ser2", "text": clip(text, 300), "output": clip(j, 400)}
+					e["same4"] = j == o.String() && j == string(mj) && j == string(o.AppendJSON(nil))
+					appendok, prefixok := true, true
+					for _, prefix := range []string{"", `[1,`} {
+						for _, spare := range []int{0, 3, 300} {
+							buf := make([]byte, len(prefix), len(prefix)+spare)
+							copy(buf, prefix)
+							res := o.AppendJSON(buf)
+							appendok = appendok && string(res) == prefix+j
+							prefixok = prefixok && bytes.Equal(buf[:len(prefix)], []byte(prefix))
+						}
+					}
+					e["appendok"], e["prefixok"] = appendok, prefixok
+					e["valid"] = json.Valid([]byte(j))
+					var top map[string]json.RawMessage
+					e["isobject"] = json.Unmarshal([]byte(j), &top) == nil && top["type"] != nil
+					ev.Emit(e)
+					parsed++
+				}()
 			}
 		}
 	}
